@@ -8,6 +8,7 @@ import (
 	"os/exec"
 	"path/filepath"
 	"strings"
+	"syscall"
 	"time"
 
 	"github.com/Eyevinn/mp4ff/avc"
@@ -149,6 +150,59 @@ type toolCtx struct {
 	c    *runner.Ctx
 	in   []byte
 	desc string
+	mode string   // witness mode ("mp4-tool": in is a whole mp4 file)
+	tags []string // mp4-tool: frame, configuration class, sample class (evidence)
+}
+
+// Resident-set bound of one tool run: the tools read the whole file and parse
+// it with the library, whose per-call bound is 8 MiB + 1024*len; 512 MiB is 30x
+// what a run on a well-formed file of this size uses (evidence: maxima.tool_max_rss_kib).
+const toolRSSBase = 512 << 20
+
+// runMP4Tools runs both tools on an mp4 file. codec: what -c gets (only used by
+// the tools when the file has no moov box); "" (replay): both.
+func runMP4Tools(c *runner.Ctx, file []byte, codec, desc string, tags []string) {
+	x := &toolCtx{c: c, in: file, desc: desc, mode: "mp4-tool", tags: tags}
+	nallister := filepath.Join(c.Env.BinDir, "tools", "mp4ff-nallister")
+	pslister := filepath.Join(c.Env.BinDir, "tools", "mp4ff-pslister")
+	if _, err := os.Stat(nallister); err != nil {
+		c.Count("tool_binaries_missing", 1)
+		return
+	}
+	// mp4ff-pslister takes a file as mp4 by its extension
+	path := filepath.Join(c.Env.Scratch, fmt.Sprintf("c16-%d.mp4", c.Idx))
+	if err := os.WriteFile(path, file, 0o644); err != nil {
+		c.Inconclusive("tool: cannot write scratch file")
+		return
+	}
+	defer os.Remove(path)
+	codecs := []string{codec}
+	other := "hevc"
+	if codec == "hevc" {
+		other = "avc"
+	}
+	if codec == "" {
+		codecs = []string{"avc", "hevc"}
+	}
+	for i, cd := range codecs {
+		runs := []toolRun{
+			{nallister, []string{"-c", cd, path}},
+			{nallister, []string{"-c", cd, "-sei", "1", "-ps", path}},
+			{nallister, []string{"-c", cd, "-sei", "2", "-raw", "8", "-m", "1", path}},
+			{pslister, []string{"-c", cd, "-i", path}},
+			{pslister, []string{"-c", cd, "-v", "-i", path}},
+		}
+		if i == 0 {
+			runs[0].args = []string{path} // no options at all
+		}
+		if len(tags) > 0 && tags[0] == "seg-only" {
+			// no moov box: -c decides which printer the samples go to
+			runs = append(runs, toolRun{nallister, []string{"-c", other, "-sei", "1", path}})
+		}
+		for _, tr := range runs {
+			x.oneTool(tr)
+		}
+	}
 }
 
 func (x *toolCtx) oneTool(tr toolRun) {
@@ -164,7 +218,11 @@ func (x *toolCtx) oneTool(tr toolRun) {
 	err := cmd.Run()
 	c.Count("tool_runs", 1)
 	var label []string
-	for i, a := range tr.args[:minInt(len(tr.args), 4)] {
+	nlab := 4
+	if x.mode == "mp4-tool" {
+		nlab = 8
+	}
+	for i, a := range tr.args[:minInt(len(tr.args), nlab)] {
 		switch {
 		case strings.HasPrefix(a, c.Env.Scratch):
 			a = "<file>"
@@ -173,14 +231,24 @@ func (x *toolCtx) oneTool(tr toolRun) {
 		}
 		label = append(label, a)
 	}
-	c.Seen("tool", name+" "+strings.Join(label, " "))
+	if x.mode == "mp4-tool" {
+		c.Count("tool_runs_on_mp4_files", 1)
+		c.Seen("tool", name+" (mp4) "+strings.Join(label, " "))
+	} else {
+		c.Seen("tool", name+" "+strings.Join(label, " "))
+	}
 	c.Evals(1)
 	var cpu time.Duration
+	var rss int64
 	if cmd.ProcessState != nil {
 		cpu = cmd.ProcessState.UserTime() + cmd.ProcessState.SystemTime()
+		if ru, ok := cmd.ProcessState.SysUsage().(*syscall.Rusage); ok && ru != nil {
+			rss = int64(ru.Maxrss) // KiB on Linux
+			c.SetMax("tool_max_rss_kib", rss)
+		}
 	}
 	se := stderr.String()
-	w := &witness{Op: "tool:" + name + " " + strings.Join(tr.args, " "), Input: hexs(x.in), Case: x.desc}
+	w := &witness{Op: "tool:" + name + " " + strings.Join(tr.args, " "), Input: hexs(x.in), Case: x.desc, Mode: x.mode}
 	if ctx.Err() != nil {
 		if cpu > toolCPUBudget {
 			c.Violation("tool/"+name+"/hang/cpu", fmt.Sprintf("%s used %.1f s CPU on %d input bytes and was killed (case %s)", name, cpu.Seconds(), len(x.in), x.desc), w)
@@ -199,6 +267,14 @@ func (x *toolCtx) oneTool(tr toolRun) {
 		}
 	}
 	c.Seen("tool_exit", fmt.Sprintf("%s exit %d", name, code))
+	if len(x.tags) == 3 {
+		c.Seen("mp4_tool_exit_by_frame", fmt.Sprintf("%s %s exit %d", name, x.tags[0], code))
+		c.Seen("mp4_tool_exit_by_config_class", fmt.Sprintf("%s %s exit %d", name, x.tags[1], code))
+		c.Seen("mp4_tool_exit_by_sample_class", fmt.Sprintf("%s %s exit %d", name, x.tags[2], code))
+		if x.tags[1] == "valid" && x.tags[2] == "valid" {
+			c.Seen("mp4_tool_exit_on_wellformed_file", fmt.Sprintf("%s %s exit %d", name, x.tags[0], code))
+		}
+	}
 	if code == 0 {
 		c.Nontrivial(runner.Hash64(x.in, []byte(name)))
 	}
@@ -206,6 +282,10 @@ func (x *toolCtx) oneTool(tr toolRun) {
 	if !crashed {
 		if cpu > toolCPUBudget {
 			c.Violation("tool/"+name+"/hang/cpu", fmt.Sprintf("%s used %.1f s CPU on %d input bytes (case %s)", name, cpu.Seconds(), len(x.in), x.desc), w)
+		}
+		if bound := int64(toolRSSBase + allocPerLen*len(x.in)); rss*1024 > bound {
+			c.Violation("tool/"+name+"/alloc/rss", fmt.Sprintf("%s %s reached a resident set of %d KiB on %d input bytes (bound %d bytes = 512 MiB + 1024*len; case %s)",
+				name, strings.Join(label, " "), rss, len(x.in), bound, x.desc), w)
 		}
 		return
 	}
@@ -215,7 +295,8 @@ func (x *toolCtx) oneTool(tr toolRun) {
 	if strings.HasPrefix(frame, "main.") || frame == "unknown" {
 		key = "tool/" + name + "/" + frame + "/" + class
 	}
-	c.Violation(key, fmt.Sprintf("%s %s crashed (exit %d) at %s: %s (case %s)", name, strings.Join(tr.args[:minInt(len(tr.args), 4)], " "), code, frame, head(firstLine(se), 200), x.desc), w)
+	c.Violation(key, fmt.Sprintf("%s %s crashed (exit %d) at %s: %s (case %s)", name, strings.Join(label, " "), code, frame, head(firstLine(se), 200), x.desc), w)
+	c.Seen("violation_key_by_generator", curKind+" "+key+" (tool)")
 }
 
 func firstLine(s string) string {
